@@ -48,6 +48,33 @@ def sh(cmd, cwd=None, env=None, timeout=None, check=True, stdin=None, capture=Tr
 _built = {}
 
 
+def run_plz(cmd, cwd, env, timeout):
+    """Runs a plz command; on timeout asks verifhook for a goroutine dump (SIGUSR1) before killing it, so that a hang is
+    diagnosable.  Returns (rc, output, dump) with rc = -9 and dump = the goroutine dump when it timed out."""
+    import signal
+    d = os.path.join(VERIF, "replays")
+    os.makedirs(d, exist_ok=True)
+    path = os.path.join(d, "hang-%d-%d.txt" % (os.getpid(), int(time.time() * 1000000)))
+    p = subprocess.Popen(cmd, cwd=cwd, env=dict(env, VERIF_DUMP=path), stdout=subprocess.PIPE, stderr=subprocess.STDOUT, text=True,
+                         errors="replace", start_new_session=True)
+    try:
+        out, _ = p.communicate(timeout=timeout)
+        return p.returncode, out, None
+    except subprocess.TimeoutExpired:
+        try:
+            os.kill(p.pid, signal.SIGUSR1)      # verifhook writes every goroutine's stack to VERIF_DUMP
+            time.sleep(2)
+            os.killpg(p.pid, signal.SIGKILL)
+        except OSError:
+            pass
+        # ... and whatever it left behind in its session (commands run in process groups of their own)
+        subprocess.run(["pkill", "-KILL", "-s", str(p.pid)], stdout=subprocess.DEVNULL, stderr=subprocess.DEVNULL)
+        out, _ = p.communicate()
+        with open(path, "a") as f:
+            f.write("\ncmd: %s\ncwd: %s\ntimeout: %ss\noutput:\n%s" % (cmd, cwd, timeout, out))
+        return -9, "TIMEOUT after %ss (goroutine dump in %s)\n%s" % (timeout, path, out[-3000:]), path
+
+
 def build_plz():
     """Builds the plz binary from /repo's current working tree with the verif tag."""
     if "plz" in _built:
